@@ -295,10 +295,11 @@ Record store := {
 Definition list_max (l : list N) : N := fold_right N.max 0 l.
 (* math.ceil(m / 1000000) * 1000000 (exact below 2^52, see the harness' idalloc stream) *)
 Definition ceil_million (m : N) : N := ((m + 999999) / 1000000) * 1000000.
-(* __init__ after IWork.open filled _objects: max() of an empty dict raises ValueError *)
+(* __init__ after IWork.open filled _objects: max() of an empty dict raises ValueError, which __init__
+   translates into FileFormatError (fix: translate foreign exceptions raised while loading a document) *)
 Definition store_init (keys : list N) (last : N) : result store :=
   match keys with
-  | [] => Err ValueError
+  | [] => Err FileFormatError
   | _ => Ok {| s_keys := keys; s_max := ceil_million (list_max keys); s_last := last |}
   end.
 Definition has_key (k : N) (s : store) : bool := existsb (N.eqb k) (s_keys s).
